@@ -3,3 +3,8 @@ import Fir.Props.C11
 #print axioms Fir.C11.nearest_copy
 #print axioms Fir.C11.nearest_dims
 #print axioms Fir.C11.nearest_no_alpha
+#print axioms Fir.C11.ideal_pixel_under_centre
+#print axioms Fir.C11.ideal_in_bounds
+#print axioms Fir.C11.ideal_mono
+#print axioms Fir.C11.ideal_integer_upscale
+#print axioms Fir.C11.ideal_odd_downscale
